@@ -459,6 +459,52 @@ Example C17_view_examples :
 Proof. exact view_repaired_examples. Qed.
 Print Assumptions C17_view_examples.
 
+(** * Value transfers through a view: the templates DataSet::getData(value, offset) / setData(value, offset)
+    (C16: no call sequence causes undefined behaviour).  With the templates repaired the transfer is the (count, offset)
+    request of one element (scalar value) resp. n elements (vector value): the elements, or an exception - never an
+    access outside the value; for every u64 offset. *)
+Theorem C17_view_get_value_spec : forall B a v vshape buf off,
+  scalar_template_empty_count B = false -> view_check_wraps B = false -> view_ok a v ->
+  all_u64 vshape -> all_u64 off ->
+  (vshape = [] \/ List.length vshape = List.length (v_count v)) -> (off = [] \/ List.length off = List.length (v_count v)) ->
+  buf = prod vshape ->
+  view_get_value B v a vshape buf off = spec_get_value v a vshape off.
+Proof. exact view_get_value_spec. Qed.
+Print Assumptions C17_view_get_value_spec.
+
+Theorem C17_view_set_value_spec : forall B a v vshape buf off gen,
+  scalar_template_empty_count B = false -> view_check_wraps B = false -> view_ok a v ->
+  all_u64 vshape -> all_u64 off ->
+  (vshape = [] \/ List.length vshape = List.length (v_count v)) -> (off = [] \/ List.length off = List.length (v_count v)) ->
+  buf = prod vshape ->
+  view_set_value B v a vshape buf off gen = spec_set_value v a vshape off gen.
+Proof. exact view_set_value_spec. Qed.
+Print Assumptions C17_view_set_value_spec.
+
+(** a scalar read moves exactly one element - the window origin for an empty offset - or throws *)
+Theorem C17_scalar_read_one_element : forall B a v off,
+  scalar_template_empty_count B = false -> view_check_wraps B = false -> view_ok a v -> all_u64 off ->
+  (off = [] \/ List.length off = List.length (v_count v)) ->
+  view_get_value B v a [] 1 off = Err oob \/
+  view_get_value B v a [] 1 off = Ok [get a (vadd (v_offset v) (real_offset v off))].
+Proof. exact scalar_read_one_element. Qed.
+Print Assumptions C17_scalar_read_one_element.
+
+(** the unrepaired templates: window [2,8) of 20 elements, scalar value: six elements are written to / read from the
+    address of one (also setData with offset {0}); on the array itself HDF5 refuses the call *)
+Theorem C17_scalar_template_refuted :
+  let w := mkView [2] [6] in
+  view_get_value repo_e3eed7c w a20 [] 1 [] = UB value_overrun_read /\
+  view_set_value repo_e3eed7c w a20 [] 1 [] (gen_from 100) = UB value_overrun_write /\
+  view_set_value repo_e3eed7c w a20 [] 1 [0] (gen_from 100) = UB value_overrun_write /\
+  arr_get_value repo_e3eed7c a20 [] 1 [] = Err h5error /\
+  view_get_value repaired_except_pinned w a20 [] 1 [] = Ok [VI 2] /\
+  view_get_value repaired_except_pinned w a20 [] 1 [5] = Ok [VI 7] /\
+  view_get_value repaired_except_pinned w a20 [] 1 [6] = Err oob /\
+  spec_get_value w a20 [] [] = Ok [VI 2].
+Proof. exact scalar_template_refuted. Qed.
+Print Assumptions C17_scalar_template_refuted.
+
 (** * The window test is the code regenerated from src/util/dataAccess.cpp on this run *)
 Theorem C17_window_test_is_generated : forall B extent pos cnt,
   SliceSwitches.extent_check_wraps B = false -> (List.length extent < 200)%nat ->
@@ -496,7 +542,8 @@ Theorem C17_pair_conversion_is_generated : forall d s e rm,
 Proof. exact NixV.Access.SlicePairBridge.slice_pair_is_generated. Qed.
 Print Assumptions C17_pair_conversion_is_generated.
 
-(** * The library under test has the repaired behaviour (the patches landed as 08a7783, 956fa36, cf8bb07); this
-    theorem breaks if the model driver is switched back to a defective behaviour *)
+(** * The open obligation: the library under test has the repaired behaviour.  The C17 patches landed as 08a7783, 956fa36,
+    cf8bb07; the scalar templates of DataSet.hpp are not repaired yet (notes/proposed-fixes/C16-dataview-scalar-template.patch):
+    this fails until [current_behaviour] in Access/SliceSwitches.v is set back to [repaired_except_pinned]. *)
 Theorem current_is_repaired : current_behaviour = repaired_except_pinned.
 Proof. reflexivity. Qed.
